@@ -7,6 +7,9 @@
 (*             calls      -- number of unify calls made                                *)
 (*             ty, rounds -- tyinst and pass counter of the final substitution loop    *)
 (*             bad        -- ghost: a successful unify call did not produce a unifier  *)
+(*             used       -- number of variables mentioned so far (symmetry reduction: *)
+(*                           variable k is first mentioned after 0..k-1; renaming the  *)
+(*                           variables is a symmetry of the algorithm)                 *)
 (*   actions : Unify(A1, A2) for ALL pairs of types over {bool, fun[, list]} and the N *)
 (*             variables (every order of calls, every sharing pattern);                *)
 (*             Finish (end of infer(): tyinst := uf); SubstPass (one pass of the       *)
@@ -29,17 +32,27 @@ IV == 0..(N - 1)
 Args == { Iv(k) : k \in IV } \cup {BoolT}
 Types == Args \cup { FunT(a, b) : a \in Args, b \in Args } \cup (IF WithList THEN { ListT(a) : a \in Args } ELSE {})
 
-VARIABLES uf, reach, status, calls, ty, rounds, bad
-vars == <<uf, reach, status, calls, ty, rounds, bad>>
+VARIABLES uf, reach, status, calls, ty, rounds, bad, used
+vars == <<uf, reach, status, calls, ty, rounds, bad, used>>
+
+\* internal variables of a type in order of occurrence; canonical introduction order
+RECURSIVE OccSeq(_), OccSeqArgs(_,_)
+OccSeq(T) == IF IsIv(T) THEN <<IvIdx(T)>> ELSE IF T[1] = "tc" THEN OccSeqArgs(T[3], 1) ELSE <<>>
+OccSeqArgs(Ts, i) == IF i > Len(Ts) THEN <<>> ELSE OccSeq(Ts[i]) \o OccSeqArgs(Ts, i + 1)
+NotCanonical == N + 1
+RECURSIVE UseAll(_,_,_)
+UseAll(m, vs, i) == IF i > Len(vs) \/ m = NotCanonical THEN m
+                    ELSE UseAll(IF vs[i] > m THEN NotCanonical ELSE IF vs[i] = m THEN m + 1 ELSE m, vs, i + 1)
 
 St(u, r) == [uf |-> u, reach |-> r, ic |-> <<>>, isc |-> <<>>, st |-> "ok", err |-> ""]
 Init == /\ uf = [k \in 1..N |-> Iv(k - 1)] /\ reach = [k \in 1..N |-> {}]
-        /\ status = "ok" /\ calls = 0 /\ ty = <<>> /\ rounds = 0 /\ bad = FALSE
+        /\ status = "ok" /\ calls = 0 /\ ty = <<>> /\ rounds = 0 /\ bad = FALSE /\ used = 0
 
 Cyclic == CyclicUf(uf)
 O == Opt(ExactOccursCheck, FALSE)
 UnifyCall(A1, A2) ==
   /\ status = "ok" /\ calls < MaxCalls
+  /\ used' = UseAll(used, OccSeq(A1) \o OccSeq(A2), 1) /\ used' # NotCanonical
   /\ LET s == Unify(St(uf, reach), A1, A2, O) IN
        /\ uf' = s.uf /\ reach' = s.reach
        /\ status' = IF s.st = "ok" THEN "ok" ELSE IF s.st = "cyc" THEN "cyclic" ELSE "rejected"
@@ -51,7 +64,7 @@ UnifyCall(A1, A2) ==
 \* end of infer(): tyinst := uf
 Finish ==
   /\ status = "ok" /\ status' = "subst" /\ ty' = uf
-  /\ UNCHANGED <<uf, reach, calls, rounds, bad>>
+  /\ UNCHANGED <<uf, reach, calls, rounds, bad, used>>
 
 \* one pass of:  for i in range(num_internal): T = tyinst[i]; if T has a bound internal variable: tyinst[i] = T.subst(tyinst)
 UnspecNames == { k \in IV : uf[k + 1] = Iv(k) }
@@ -65,7 +78,7 @@ SubstPass ==
      THEN IF rounds >= N THEN status' = "diverged" /\ UNCHANGED <<ty, rounds>>
           ELSE ty' = Pass(ty, 1) /\ rounds' = rounds + 1 /\ status' = "subst"
      ELSE status' = "done" /\ UNCHANGED <<ty, rounds>>
-  /\ UNCHANGED <<uf, reach, calls, bad>>
+  /\ UNCHANGED <<uf, reach, calls, bad, used>>
 
 Next == (\E A1 \in Types, A2 \in Types : UnifyCall(A1, A2)) \/ Finish \/ SubstPass
 Spec == Init /\ [][Next]_vars
